@@ -342,7 +342,7 @@ def setUTC (k : Setter) (d : DateObj) (args : List FV) : DateObj × Num :=
   | _ =>
     let args := args.take k.limit
     let vals := if args.isEmpty then none else numberArgs args
-    if d.isNaN ∧ k ≠ .year then (d, none)
+    if d.isNaN ∧ k ≠ .year then (invalidDateObject, none)      -- the NaN result is stored like any other
     else
       let base := if d.isNaN then newDate zero else d      -- nanAsZero: date = dateObject{}; date.Set(0)
       match vals with
@@ -446,7 +446,7 @@ def LSetter.limit : LSetter → Nat
 def setLocal (z : Zone) (k : LSetter) (d : DateObj) (args : List FV) : DateObj × Num :=
   let args := args.take k.limit
   let vals := if args.isEmpty then none else numberArgs args
-  if d.isNaN ∧ k ≠ .year ∧ k ≠ .year2 then (d, none)          -- setFullYear and setYear restart from +0
+  if d.isNaN ∧ k ≠ .year ∧ k ≠ .year2 then (invalidDateObject, none)          -- setFullYear and setYear restart from +0
   else
     -- nanAsZero, local: date.SetTime(time.Date(1970, 1, 1, 0, 0, 0, 0, time.Local))
     let base := if d.isNaN then newDate (ofInt (z.dateToUnix 0 * 1000)) else d
@@ -533,16 +533,13 @@ def curAfter (d : DateObj) (as : List Arg) : DateObj :=
 
 /-- a setter called with scripted arguments: (object state, outcome, log of valueOf calls).
     `date` is read at entry, before the conversions; a re-entrant setTime(m) from a valueOf writes the object
-    (`cur`); the outer call then computes from the value read at entry and stores its result over it — except on
-    the early return for an invalid date, which stores nothing. -/
+    (`cur`); the outer call then computes from the value read at entry and stores its result (NaN included) over it. -/
 def setUTCS (k : Setter) (d : DateObj) (args : List Arg) : DateObj × Outcome × List Nat :=
   let as := args.take k.limit
   let cur := curAfter d as
   match convArgs as 0 with
   | (l, none) => (cur, .threw, l)
-  | (l, some vs) =>
-    if k ≠ .time ∧ k ≠ .year ∧ d.isNaN then (cur, .ret none, l)
-    else let (d', r) := setUTC k d vs; (d', .ret r, l)
+  | (l, some vs) => let (d', r) := setUTC k d vs; (d', .ret r, l)
 
 /-- the same for the local setters -/
 def setLocalS (z : Zone) (k : LSetter) (d : DateObj) (args : List Arg) : DateObj × Outcome × List Nat :=
@@ -550,9 +547,7 @@ def setLocalS (z : Zone) (k : LSetter) (d : DateObj) (args : List Arg) : DateObj
   let cur := curAfter d as
   match convArgs as 0 with
   | (l, none) => (cur, .threw, l)
-  | (l, some vs) =>
-    if k ≠ .year ∧ k ≠ .year2 ∧ d.isNaN then (cur, .ret none, l)
-    else let (d', r) := setLocal z k d vs; (d', .ret r, l)
+  | (l, some vs) => let (d', r) := setLocal z k d vs; (d', .ret r, l)
 
 def runLocalSettersS (z : Zone) (d : DateObj) : List (LSetter × List Arg) → DateObj × List (Outcome × List Nat)
   | [] => (d, [])
